@@ -58,6 +58,23 @@ def widthSum (w : WMap) : List String → Nat
   | [] => 0
   | c :: cs => (w.get c).getD 0 + widthSum w cs
 
+/-- two lists related element by element (core has no `Forall₂`) -/
+inductive AllPairs {α β : Type} (R : α → β → Prop) : List α → List β → Prop
+  | nil : AllPairs R [] []
+  | cons {a b as bs} : R a b → AllPairs R as bs → AllPairs R (a :: as) (b :: bs)
+
+theorem AllPairs.split {α β : Type} {R : α → β → Prop} : ∀ (a1 a2 : List α) (bs : List β),
+    AllPairs R (a1 ++ a2) bs → ∃ b1 b2, bs = b1 ++ b2 ∧ AllPairs R a1 b1 ∧ AllPairs R a2 b2 := by
+  intro a1
+  induction a1 with
+  | nil => intro a2 bs h; exact ⟨[], bs, rfl, .nil, h⟩
+  | cons a as ih =>
+    intro a2 bs h
+    cases h with
+    | cons hr hrest =>
+      obtain ⟨b1, b2, rfl, h1, h2⟩ := ih a2 _ hrest
+      exact ⟨_ :: b1, b2, rfl, .cons hr h1, h2⟩
+
 /-! ### `No data` -/
 
 theorem C19_empty (env : Env) (st : St) (t : Table) (h : t.rows = []) :
@@ -115,7 +132,7 @@ theorem fmtEllipsis_ok (inp : Str) (n : Nat) (h : 2 ≤ n) : ∃ cell, fmtEllips
 /-- what `rowCells` returns, cell by cell -/
 theorem rowCells_spec (w : WMap) (row : Fields) : ∀ (cols : List String) (cells : List Str),
     rowCells w row cols = .ok cells →
-    List.Forall₂ (fun c cell => ∃ n, w.get c = some n ∧
+    AllPairs (fun c cell => ∃ n, w.get c = some n ∧
       fmtEllipsis (cellText ((Fields.get c row).getD .none)) n = .ok cell) cols cells := by
   intro cols
   induction cols with
@@ -137,7 +154,7 @@ theorem rowCells_spec (w : WMap) (row : Fields) : ∀ (cols : List String) (cell
           rw [hr] at h
           simp only [Outcome.ok.injEq] at h
           subst h
-          exact .cons ⟨n, rfl, hf⟩ (ih rest hr)
+          exact .cons ⟨n, hg, hf⟩ (ih rest hr)
         | err k => rw [hr] at h; simp at h
         | panic p => rw [hr] at h; simp at h
         | unmodelled u => rw [hr] at h; simp at h
@@ -171,12 +188,11 @@ theorem C19_offsets (w : WMap) (row : Fields) (pre : List String) (c : String) (
       w.get c = some n ∧ cell.length = n ∧
       fmtEllipsis (cellText ((Fields.get c row).getD .none)) n = .ok cell := by
   have hs := rowCells_spec w row _ cells h
-  obtain ⟨cellsPre, rest, hpre, hrest, rfl⟩ := List.forall₂_append_left_iff.mp hs |>.elim (fun _ => id) id
-    |> fun x => x
+  obtain ⟨cellsPre, rest, rfl, hpre, hrest⟩ := AllPairs.split _ _ _ hs
   cases hrest with
-  | cons hc hpost =>
+  | @cons _ cell _ cellsPost hc hpost =>
     obtain ⟨n, hn, hf⟩ := hc
-    refine ⟨concat cellsPre, _, concat _, n, ?_, ?_, hn, C19_cell_length _ _ _ hf, hf⟩
+    refine ⟨concat cellsPre, cell, concat cellsPost, n, ?_, ?_, hn, C19_cell_length _ _ _ hf, hf⟩
     · simp [concat_append, concat]
     · -- the cells before are as wide as their columns
       clear hs h
@@ -185,6 +201,421 @@ theorem C19_offsets (w : WMap) (row : Fields) (pre : List String) (c : String) (
       | cons hx _ ih =>
         obtain ⟨m, hm, hfm⟩ := hx
         simp [concat, widthSum, hm, C19_cell_length _ _ _ hfm, ih]
+
+/-- evaluation helper: `Outcome` has no `DecidableEq`, `Option` has -/
+theorem eq_ok_of_toOption {α : Type} {o : Outcome α} {a : α} (h : o.toOption = some a) : o = .ok a := by
+  cases o <;> simp [Outcome.toOption] at h
+  subst h; rfl
+
+/-! ### `trim()` -/
+
+theorem trimEnd_length_le (s : Str) : (Text.trimEnd s).length ≤ s.length := by
+  simp only [Text.trimEnd, List.length_reverse]
+  have := (List.dropWhile_sublist (l := s.reverse) Text.isWhite).length_le
+  simpa using this
+
+theorem trimStart_length_le (s : Str) : (Text.trimStart s).length ≤ s.length :=
+  (List.dropWhile_sublist (l := s) Text.isWhite).length_le
+
+theorem trim_length_le (s : Str) : (Text.trim s).length ≤ s.length :=
+  Nat.le_trans (trimEnd_length_le _) (trimStart_length_le s)
+
+/-- `trim_end` removes a suffix of blanks, so every cell keeps its offset -/
+theorem trimEnd_prefix (s : Str) : ∃ t, s = Text.trimEnd s ++ t ∧ ∀ c ∈ t, Text.isWhite c = true := by
+  refine ⟨(s.reverse.takeWhile Text.isWhite).reverse, ?_, ?_⟩
+  · have h := List.takeWhile_append_dropWhile (p := Text.isWhite) (l := s.reverse)
+    have h2 := congrArg List.reverse h
+    simp only [List.reverse_append, List.reverse_reverse] at h2
+    simp only [Text.trimEnd]
+    exact h2.symm
+  · intro c hc
+    simp only [List.mem_reverse] at hc
+    have hall := List.all_takeWhile (p := Text.isWhite) (l := s.reverse)
+    exact List.all_eq_true.mp hall c hc
+
+theorem trim_eq_trimEnd (c : Char) (rest : Str) (h : Text.isWhite c = false) :
+    Text.trim (c :: rest) = Text.trimEnd (c :: rest) := by
+  simp [Text.trim, Text.trimStart, List.dropWhile, h]
+
+/-- the full offset statement for the PRINTED line: it is the assembled row up to trailing blanks -/
+def C19_trim_full : Prop :=
+  ∀ (w : WMap) (row : Fields) (cols : List String) (cells : List Str),
+    rowCells w row cols = .ok cells →
+    ∃ t, concat cells = Text.trim (concat cells) ++ t ∧ ∀ c ∈ t, Text.isWhite c = true
+
+/-- an empty first cell: `trim()` eats the column's padding and every later cell moves left -/
+theorem C19_trim_counterexample : ¬ C19_trim_full := by
+  intro h
+  obtain ⟨t, ht, _⟩ := h [("k", 3), ("n", 3)] [("k", .str ""), ("n", .int 7)] ["k", "n"]
+    [[' ', ' ', ' '], ['7', ' ', ' ']] (eq_ok_of_toOption (by decide))
+  have h1 : concat [[' ', ' ', ' '], ['7', ' ', ' ']] = [' ', ' ', ' ', '7', ' ', ' '] := by decide
+  have h2 : Text.trim [' ', ' ', ' ', '7', ' ', ' '] = ['7'] := by decide
+  rw [h1, h2] at ht
+  simp at ht
+
+/-- **C19_trim_partial**: when the row does not start with a blank, the printed line is the
+assembled row minus trailing blanks, so `C19_offsets` describes the printed line too. -/
+theorem C19_trim_partial (w : WMap) (row : Fields) (cols : List String) (cells : List Str) (line : Str)
+    (hl : rowLine w cols row = .ok line) (hc : rowCells w row cols = .ok cells)
+    (hfirst : ∃ c rest, concat cells = c :: rest ∧ Text.isWhite c = false) :
+    ∃ t, concat cells = line ++ t ∧ ∀ c ∈ t, Text.isWhite c = true := by
+  simp only [rowLine, hc, Outcome.ok.injEq] at hl
+  subst hl
+  obtain ⟨c, rest, hcr, hw⟩ := hfirst
+  rw [hcr, trim_eq_trimEnd c rest hw]
+  exact trimEnd_prefix _
+
+/-- non-vacuity of `C19_trim_partial` -/
+example : rowLine [("k", 3), ("n", 3)] ["k", "n"] [("k", .str "a"), ("n", .int 7)] = .ok ['a', ' ', ' ', '7'] ∧
+    (∃ c rest, concat [['a', ' ', ' '], ['7', ' ', ' ']] = c :: rest ∧ Text.isWhite c = false) := by
+  refine ⟨eq_ok_of_toOption (by decide), 'a', _, rfl, by decide⟩
+
+/-! ### sums of widths -/
+
+theorem get_cons_ne (k c : String) (v : Nat) (t : WMap) (h : c ≠ k) :
+    WMap.get c ((k, v) :: t) = WMap.get c t := by
+  simp [WMap.get, h]
+
+theorem widthSum_cons_notin (k : String) (v : Nat) (t : WMap) : ∀ (cols : List String), k ∉ cols →
+    widthSum ((k, v) :: t) cols = widthSum t cols := by
+  intro cols
+  induction cols with
+  | nil => intro _; rfl
+  | cons c cs ih =>
+    intro h
+    simp only [List.mem_cons, not_or] at h
+    simp [widthSum, get_cons_ne k c v t (fun e => h.1 e.symm), ih h.2]
+
+theorem widthSum_cons_le (k : String) (v : Nat) (t : WMap) : ∀ (cols : List String), cols.Nodup →
+    widthSum ((k, v) :: t) cols ≤ v + widthSum t cols := by
+  intro cols
+  induction cols with
+  | nil => intro _; simp [widthSum]
+  | cons c cs ih =>
+    intro hnd
+    rw [List.nodup_cons] at hnd
+    by_cases hck : c = k
+    · subst hck
+      simp [widthSum, WMap.get, widthSum_cons_notin c v t cs hnd.1]
+    · have := ih hnd.2
+      simp only [widthSum, get_cons_ne k c v t hck]
+      omega
+
+/-- distinct columns never take more than the whole map -/
+theorem widthSum_le_total : ∀ (w : WMap) (cols : List String), cols.Nodup → widthSum w cols ≤ w.total := by
+  intro w
+  induction w with
+  | nil =>
+    intro cols _
+    have : ∀ cs : List String, widthSum [] cs = 0 := by
+      intro cs; induction cs with
+      | nil => rfl
+      | cons c cs ih => simp [widthSum, WMap.get, ih]
+    simp [this, WMap.total]
+  | cons kv t ih =>
+    intro cols hnd
+    obtain ⟨k, v⟩ := kv
+    have h1 := widthSum_cons_le k v t cols hnd
+    have h2 := ih cols hnd
+    simp only [WMap.total]
+    omega
+
+/-! ### the parts of a table -/
+
+theorem AllPairs.mem_right {α β : Type} {R : α → β → Prop} {as : List α} {bs : List β}
+    (h : AllPairs R as bs) : ∀ b ∈ bs, ∃ a ∈ as, R a b := by
+  induction h with
+  | nil => intro b hb; simp at hb
+  | cons hr _ ih =>
+    intro b hb
+    simp only [List.mem_cons] at hb
+    rcases hb with rfl | hb
+    · exact ⟨_, by simp, hr⟩
+    · obtain ⟨a, ha, hab⟩ := ih b hb
+      exact ⟨a, by simp [ha], hab⟩
+
+theorem bodyLines_spec (w : WMap) (cols : List String) : ∀ (rows : List Fields) (body : List Str),
+    bodyLines w cols rows = .ok body →
+    AllPairs (fun row l => ∃ cells, rowCells w row cols = .ok cells ∧ l = Text.trim (concat cells)) rows body := by
+  intro rows
+  induction rows with
+  | nil => intro body h; simp [bodyLines] at h; subst h; exact .nil
+  | cons r rs ih =>
+    intro body h
+    simp only [bodyLines, rowLine] at h
+    cases hc : rowCells w r cols with
+    | ok cells =>
+      rw [hc] at h
+      simp only [] at h
+      cases hb : bodyLines w cols rs with
+      | ok ls =>
+        rw [hb] at h
+        simp only [Outcome.ok.injEq] at h
+        subst h
+        exact .cons ⟨cells, hc, rfl⟩ (ih ls hb)
+      | err k => rw [hb] at h; simp at h
+      | panic p => rw [hb] at h; simp at h
+      | unmodelled u => rw [hb] at h; simp at h
+    | err k => rw [hc] at h; simp at h
+    | panic p => rw [hc] at h; simp at h
+    | unmodelled u => rw [hc] at h; simp at h
+
+theorem headerCells_spec (w : WMap) : ∀ (cols : List String) (hs : List Str),
+    headerCells w cols = .ok hs →
+    AllPairs (fun c h => ∃ n, w.get c = some n ∧ h = padTo n c.toList) cols hs := by
+  intro cols
+  induction cols with
+  | nil => intro hs h; simp [headerCells] at h; subst h; exact .nil
+  | cons c cs ih =>
+    intro hs h
+    simp only [headerCells] at h
+    cases hg : w.get c with
+    | none => rw [hg] at h; simp at h
+    | some n =>
+      rw [hg] at h
+      simp only [] at h
+      cases hr : headerCells w cs with
+      | ok rest =>
+        rw [hr] at h
+        simp only [Outcome.ok.injEq] at h
+        subst h
+        exact .cons ⟨n, hg, rfl⟩ (ih rest hr)
+      | err k => rw [hr] at h; simp at h
+      | panic p => rw [hr] at h; simp at h
+      | unmodelled u => rw [hr] at h; simp at h
+
+/-- what a successful `tableParts` consists of -/
+theorem tableParts_inv (env : Env) (widths : WMap) (t : Table) (w2 : WMap) (parts : Parts)
+    (h : tableParts env widths t = .ok (w2, parts)) :
+    resize env (absorbRows env.cfg widths t.rows) t.columns = .ok w2 ∧ fits env w2 = true ∧
+    ∃ hs, headerCells w2 t.columns = .ok hs ∧ parts.header = Text.trim (concat hs) ∧
+      parts.sep = List.replicate (byteLen (concat hs)) '-' ∧
+      bodyLines w2 t.columns t.rows = .ok parts.body := by
+  simp only [tableParts] at h
+  cases hr : resize env (absorbRows env.cfg widths t.rows) t.columns with
+  | ok w2' =>
+    rw [hr] at h
+    simp only [] at h
+    by_cases hf : fits env w2' = true
+    · simp only [hf, Bool.not_true, Bool.false_eq_true, ↓reduceIte] at h
+      cases hh : headerCells w2' t.columns with
+      | ok hs =>
+        rw [hh] at h
+        simp only [] at h
+        cases hb : bodyLines w2' t.columns t.rows with
+        | ok body =>
+          rw [hb] at h
+          simp only [Outcome.ok.injEq, Prod.mk.injEq] at h
+          obtain ⟨rfl, rfl⟩ := h
+          exact ⟨rfl, hf, hs, hh, rfl, rfl, hb⟩
+        | err k => rw [hb] at h; simp at h
+        | panic p => rw [hb] at h; simp at h
+        | unmodelled u => rw [hb] at h; simp at h
+      | err k => rw [hh] at h; simp at h
+      | panic p => rw [hh] at h; simp at h
+      | unmodelled u => rw [hh] at h; simp at h
+    · simp [hf] at h
+  | err k => rw [hr] at h; simp at h
+  | panic p => rw [hr] at h; simp at h
+  | unmodelled u => rw [hr] at h; simp at h
+
+/-- **C19_body_width.**  Every body line has at most `width` characters (240 without a terminal),
+for every table with distinct column names and every size for which the printer does not panic. -/
+theorem C19_body_width (env : Env) (widths : WMap) (t : Table) (w2 : WMap) (parts : Parts)
+    (hnd : t.columns.Nodup) (h : tableParts env widths t = .ok (w2, parts)) :
+    ∀ l ∈ parts.body, l.length ≤ env.maxWidth := by
+  obtain ⟨_, hfits, _, _, _, _, hb⟩ := tableParts_inv env widths t w2 parts h
+  intro l hl
+  obtain ⟨row, _, cells, hc, rfl⟩ := (bodyLines_spec w2 t.columns t.rows parts.body hb).mem_right l hl
+  have h1 := trim_length_le (concat cells)
+  have h2 := rowCells_length w2 row t.columns cells hc
+  have h3 := widthSum_le_total w2 t.columns hnd
+  have h4 : w2.total ≤ env.maxWidth := by simpa [fits] using hfits
+  omega
+
+/-! ### header and separator -/
+
+/-- **C19_header.**  The header line is the column names in column order, each padded with blanks
+to its column's width (and never cut), then `trim()`med. -/
+theorem C19_header (env : Env) (widths : WMap) (t : Table) (w2 : WMap) (parts : Parts)
+    (h : tableParts env widths t = .ok (w2, parts)) :
+    ∃ hs, AllPairs (fun c cell => ∃ n, w2.get c = some n ∧ cell = c.toList ++ List.replicate (n - c.toList.length) ' ')
+        t.columns hs ∧ parts.header = Text.trim (concat hs) := by
+  obtain ⟨_, _, hs, hh, hhead, _, _⟩ := tableParts_inv env widths t w2 parts h
+  exact ⟨hs, headerCells_spec w2 t.columns hs hh, hhead⟩
+
+/-- when every name fits its column the header cells are exactly as wide as the body cells, so
+names sit at their columns' offsets -/
+theorem header_length_fits (w : WMap) : ∀ (cols : List String) (hs : List Str),
+    AllPairs (fun c h => ∃ n, w.get c = some n ∧ h = padTo n c.toList) cols hs →
+    (∀ c ∈ cols, ∀ n, w.get c = some n → c.toList.length ≤ n) →
+    (concat hs).length = widthSum w cols := by
+  intro cols hs h
+  induction h with
+  | nil => intro _; rfl
+  | @cons c cell cs rest hc _ ih =>
+    intro hfit
+    obtain ⟨n, hn, rfl⟩ := hc
+    have := hfit c (by simp) n hn
+    simp only [concat, List.length_append, widthSum, hn, Option.getD_some, padTo, List.length_replicate]
+    rw [ih (fun d hd m hm => hfit d (by simp [hd]) m hm)]
+    omega
+
+/-- the full width statement for the header line -/
+def C19_header_width_full : Prop :=
+  ∀ (env : Env) (widths : WMap) (t : Table) (w2 : WMap) (parts : Parts),
+    t.columns.Nodup → tableParts env widths t = .ok (w2, parts) → parts.header.length ≤ env.maxWidth
+
+def headerLen : Outcome (WMap × Parts) → Option Nat
+  | .ok (_, p) => some p.header.length
+  | _ => none
+
+def sepLen : Outcome (WMap × Parts) → Option Nat
+  | .ok (_, p) => some p.sep.length
+  | _ => none
+
+def envNarrow12 : Env := { cfg := { minBuf := 4, maxBuf := 8 }, term := some (12, 10) }
+def tableLongName : Table :=
+  { columns := ["a_rather_long_column_name", "_count"],
+    rows := [[("_count", .int 1), ("a_rather_long_column_name", .str "x")]] }
+
+/-- header cells are padded, never cut: a 25-character name on a 12-column terminal -/
+theorem C19_header_width_counterexample : ¬ C19_header_width_full := by
+  intro h
+  have hev : headerLen (tableParts envNarrow12 [] tableLongName) = some 31 := by decide
+  cases hp : tableParts envNarrow12 [] tableLongName with
+  | ok r =>
+    obtain ⟨w2, parts⟩ := r
+    have := h envNarrow12 [] tableLongName w2 parts (by decide) hp
+    rw [hp] at hev
+    simp only [headerLen, Option.some.injEq] at hev
+    rw [hev] at this
+    revert this
+    decide
+  | err k => rw [hp] at hev; simp [headerLen] at hev
+  | panic p => rw [hp] at hev; simp [headerLen] at hev
+  | unmodelled u => rw [hp] at hev; simp [headerLen] at hev
+
+/-- **C19_header_width_partial**: the header line fits when every column name fits its column
+(always the case when the natural widths fit: a column is at least as wide as its name) -/
+theorem C19_header_width_partial (env : Env) (widths : WMap) (t : Table) (w2 : WMap) (parts : Parts)
+    (hnd : t.columns.Nodup) (h : tableParts env widths t = .ok (w2, parts))
+    (hfit : ∀ c ∈ t.columns, ∀ n, w2.get c = some n → c.toList.length ≤ n) :
+    parts.header.length ≤ env.maxWidth := by
+  obtain ⟨_, hfits, hs, hh, hhead, _, _⟩ := tableParts_inv env widths t w2 parts h
+  have h0 := header_length_fits w2 t.columns hs (headerCells_spec w2 t.columns hs hh) hfit
+  have h1 := trim_length_le (concat hs)
+  have h3 := widthSum_le_total w2 t.columns hnd
+  have h4 : w2.total ≤ env.maxWidth := by simpa [fits] using hfits
+  rw [hhead]
+  omega
+
+/-- non-vacuity: the unit test's table at width 100 -/
+example : headerLen (tableParts { cfg := { minBuf := 2, maxBuf := 4 }, term := some (100, 10) } []
+    { columns := ["kc1", "count"], rows := [[("count", .int 100), ("kc1", .str "k1")]] }) = some 12 := by
+  decide
+
+/-- the separator has `header.len()` dashes: BYTES of the padded header -/
+theorem C19_separator (env : Env) (widths : WMap) (t : Table) (w2 : WMap) (parts : Parts)
+    (h : tableParts env widths t = .ok (w2, parts)) :
+    (∀ c ∈ parts.sep, c = '-') ∧
+    ∃ hs, headerCells w2 t.columns = .ok hs ∧ parts.sep.length = byteLen (concat hs) := by
+  obtain ⟨_, _, hs, hh, _, hsep, _⟩ := tableParts_inv env widths t w2 parts h
+  refine ⟨?_, hs, hh, by simp [hsep]⟩
+  intro c hc
+  rw [hsep] at hc
+  exact (List.mem_replicate.mp hc).2
+
+def C19_separator_width_full : Prop :=
+  ∀ (env : Env) (widths : WMap) (t : Table) (w2 : WMap) (parts : Parts),
+    t.columns.Nodup → tableParts env widths t = .ok (w2, parts) →
+    (∀ c ∈ t.columns, ∀ n, w2.get c = some n → c.toList.length ≤ n) →
+    parts.sep.length ≤ env.maxWidth
+
+def envNarrow24 : Env := { cfg := { minBuf := 4, maxBuf := 8 }, term := some (24, 10) }
+def tableMultiByte : Table :=
+  { columns := ["größe", "_count"],
+    rows := [[("_count", .int 1), ("größe", .str "abcdefghijklmnopqrstuvwxyz")]] }
+
+/-- multi-byte column names: more dashes than the terminal has columns, although every name fits -/
+theorem C19_separator_width_counterexample : ¬ C19_separator_width_full := by
+  intro h
+  have hev : sepLen (tableParts envNarrow24 [] tableMultiByte) = some 26 := by decide
+  cases hp : tableParts envNarrow24 [] tableMultiByte with
+  | ok r =>
+    obtain ⟨w2, parts⟩ := r
+    have hw : w2 = [("größe", 12), ("_count", 12)] := by
+      have : (match tableParts envNarrow24 [] tableMultiByte with
+        | .ok (w, _) => decide (w = [("größe", 12), ("_count", 12)]) | _ => false) = true := by decide
+      rw [hp] at this
+      simpa using this
+    have := h envNarrow24 [] tableMultiByte w2 parts (by decide) hp (by
+      subst hw
+      intro c hc n hn
+      simp [tableMultiByte] at hc
+      rcases hc with rfl | rfl
+      · have : WMap.get "größe" [("größe", 12), ("_count", 12)] = some 12 := by decide
+        rw [this] at hn; cases hn; decide
+      · have : WMap.get "_count" [("größe", 12), ("_count", 12)] = some 12 := by decide
+        rw [this] at hn; cases hn; decide)
+    rw [hp] at hev
+    simp only [sepLen, Option.some.injEq] at hev
+    rw [hev] at this
+    revert this
+    decide
+  | err k => rw [hp] at hev; simp [sepLen] at hev
+  | panic p => rw [hp] at hev; simp [sepLen] at hev
+  | unmodelled u => rw [hp] at hev; simp [sepLen] at hev
+
+theorem byteLen_ge_length : ∀ s : Str, s.length ≤ byteLen s := by
+  intro s
+  induction s with
+  | nil => simp [byteLen]
+  | cons c cs ih =>
+    have : 1 ≤ c.utf8Size := Char.utf8Size_pos c
+    simp only [byteLen, List.length_cons]
+    omega
+
+theorem byteLen_ascii : ∀ s : Str, (∀ c ∈ s, c.utf8Size = 1) → byteLen s = s.length := by
+  intro s
+  induction s with
+  | nil => intro _; rfl
+  | cons c cs ih =>
+    intro h
+    simp only [byteLen, List.length_cons, h c (by simp), ih (fun d hd => h d (by simp [hd]))]
+    omega
+
+theorem header_ascii (w : WMap) : ∀ (cols : List String) (hs : List Str),
+    AllPairs (fun c h => ∃ n, w.get c = some n ∧ h = padTo n c.toList) cols hs →
+    (∀ c ∈ cols, ∀ x ∈ c.toList, x.utf8Size = 1) → ∀ x ∈ concat hs, x.utf8Size = 1 := by
+  intro cols hs h
+  induction h with
+  | nil => intro _ x hx; simp [concat] at hx
+  | @cons c cell cs rest hc _ ih =>
+    obtain ⟨n, _, rfl⟩ := hc
+    intro hascii x hx
+    simp only [concat, List.mem_append, padTo, List.mem_replicate] at hx
+    rcases hx with (hx | hx) | hx
+    · exact hascii c (by simp) x hx
+    · rw [hx.2]; decide
+    · exact ih (fun d hd => hascii d (by simp [hd])) x hx
+
+/-- **C19_separator_width_partial**: with single-byte (ASCII) column names that fit their columns the
+separator is exactly as long as the table is wide -/
+theorem C19_separator_width_partial (env : Env) (widths : WMap) (t : Table) (w2 : WMap) (parts : Parts)
+    (hnd : t.columns.Nodup) (h : tableParts env widths t = .ok (w2, parts))
+    (hfit : ∀ c ∈ t.columns, ∀ n, w2.get c = some n → c.toList.length ≤ n)
+    (hascii : ∀ c ∈ t.columns, ∀ x ∈ c.toList, x.utf8Size = 1) :
+    parts.sep.length = widthSum w2 t.columns ∧ parts.sep.length ≤ env.maxWidth := by
+  obtain ⟨_, hfits, hs, hh, _, hsep, _⟩ := tableParts_inv env widths t w2 parts h
+  have hspec := headerCells_spec w2 t.columns hs hh
+  have h0 := header_length_fits w2 t.columns hs hspec hfit
+  have hb : byteLen (concat hs) = (concat hs).length :=
+    byteLen_ascii _ (header_ascii w2 t.columns hs hspec hascii)
+  have h3 := widthSum_le_total w2 t.columns hnd
+  have h4 : w2.total ≤ env.maxWidth := by simpa [fits] using hfits
+  rw [hsep, List.length_replicate, hb, h0]
+  exact ⟨rfl, by omega⟩
 
 end C19
 end Ag
